@@ -47,6 +47,8 @@ func tgText(props []tgProp, form string) string {
 		return tgName(props[0].T)
 	case "nullable-alias":
 		return tgName(props[0].T) + " // {nullable: true}"
+	case "choice":
+		return tgName(props[0].T) + " | " + tgName(props[0].U)
 	}
 	rootAnn := ""
 	if form == "nullable-object" {
@@ -69,6 +71,9 @@ func tgText(props []tgProp, form string) string {
 			v = "1"
 		case "choice":
 			v = tgName(p.T) + " | " + tgName(p.U)
+			if p.M == "mixed" {
+				ann = " // {type: \"mixed\"}"
+			}
 		default:
 			v = tgName(p.T)
 			switch p.M {
@@ -80,6 +85,13 @@ func tgText(props []tgProp, form string) string {
 				ann = " // {nullable: true}"
 			case "array":
 				v = "[" + v + "]"
+			case "arraymin":
+				sep := ","
+				if i == len(props)-1 {
+					sep = ""
+				}
+				lines = append(lines, fmt.Sprintf("  \"p%d\": [ // {minItems: 1}\n    %s,\n    \"leaf\"\n  ]%s", i, v, sep))
+				continue
 			}
 		}
 		sep := ","
@@ -248,16 +260,18 @@ func runC06(c *core.Ctx) error {
 	mkx := func(n, mr, mo int, ring bool, modes string, fat int) string {
 		return mkf(n, mr, mo, ring, modes, fat, `{"object"}`)
 	}
-	allForms := `{"object", "nullable-object", "alias", "nullable-alias"}`
+	allForms := `{"object", "nullable-object", "alias", "nullable-alias", "choice"}`
 	mk := func(n, mr, mo int, ring bool) string { return mkx(n, mr, mo, ring, allModes, 0) }
 	// 4 types, requirement edges only (plain references and choices), one non-root type as large as the root:
 	// the graphs where a memoising or order-dependent walk goes wrong
 	cfgs := []cfgT{{"TypeGraph_3_2_1.cfg", mk(3, 2, 1, false), 1}, {"TypeGraph_ring4.cfg", mk(4, 1, 1, true), 1}, {"TypeGraph_ring5.cfg", mk(5, 1, 1, true), 1},
 		{"TypeGraph_4_plain_fat1.cfg", mkx(4, 2, 1, false, `{"plain"}`, 1), 1},
 		// what the root node of a type may be: nullable objects and aliases, among 3 types and on rings of 4
-		{"TypeGraph_3_forms.cfg", mkf(3, 1, 1, false, `{"plain", "nullable"}`, 0, allForms), 1}, {"TypeGraph_ring4_forms.cfg", mkf(4, 1, 1, true, `{"plain"}`, 0, allForms), 1},
+		{"TypeGraph_3_forms.cfg", mkf(3, 1, 1, false, `{"plain", "nullable", "mixed"}`, 0, allForms), 1}, {"TypeGraph_ring4_forms.cfg", mkf(4, 1, 1, true, `{"plain"}`, 0, allForms), 1},
 		// optional key-shortcut links next to a literal key of the same spelling
 		{"TypeGraph_3_shortcut.cfg", mkx(3, 2, 1, false, `{"plain", "shortcut"}`, 0), 1},
+		// references inside arrays that must not be empty, next to a finite element
+		{"TypeGraph_3_arraymin.cfg", mkx(3, 2, 1, false, `{"plain", "arraymin"}`, 0), 1},
 		// schemas whose keys are optional by default: a link is mandatory only with `optional: false`
 		{"TypeGraph_3_optdefault.cfg", mko(3, 2, 1, false, `{"plain", "required", "nullable"}`, 0, `{"object"}`, "TRUE"), 1},
 		{"TypeGraph_ring4_optdefault.cfg", mko(4, 1, 1, true, `{"plain", "required"}`, 0, `{"object"}`, "TRUE"), 1}}
